@@ -25,12 +25,6 @@ Definition as_bytes (t : tree) : option bytes := match t with TB b => Some b | _
 Definition as_optint (t : tree) : option (option Z) :=
   match t with TI z => Some (Some z) | TL [] => Some None | _ => None end.
 
-Fixpoint map_opt {A B} (f : A -> option B) (l : list A) : option (list B) :=
-  match l with
-  | [] => Some []
-  | x :: xs => match f x, map_opt f xs with Some y, Some ys => Some (y :: ys) | _, _ => None end
-  end.
-
 Fixpoint tree_eqb (a b : tree) : bool :=
   match a, b with
   | TI x, TI y => x =? y
